@@ -1,7 +1,7 @@
 #!/bin/bash
 # runs each seeded change against the checks of its property (and related ones) and records what caught it
 cd /verif
-declare -A REL=( [C01]="C01 C06" [C03]="C03 C01" [C04]="C04 C16" [C05]="C05" [C06]="C06" [C08]="C08" [C09]="C09" [C10]="C10" [C11]="C11" [C12]="C12 C11" [C13]="C13" [C14]="C14" [C15]="C15" [C16]="C16 C17" [C17]="C17" [C19]="C19" [C20]="C20" [C02]="C02 C01 C05" [C07]="C07" [C01b]="C01" [C03b]="C03 C14" [C05b]="C05 C02" [C09b]="C09" [C10b]="C10" [C14b]="C14 C10" [C15b]="C15" [C04b]="C04" [C06b]="C06 C01" [C08b]="C08" [C11b]="C11 C12" [C12b]="C12 C11" [C13b]="C13" [C16b]="C16" [C17b]="C17" [C19b]="C19" [C20b]="C20" [C01c]="C01 C07" [C03c]="C03 C07" [C05c]="C05 C02" [C07b]="C07" [C09c]="C09" [C10c]="C10" [C14c]="C14" [C15c]="C15 C04" [C16c]="C16" [C17c]="C17" [C19c]="C19" [C02b]="C02 C01 C06" [C01d]="C01 C02" [C03d]="C03" [C04c]="C04 C15" [C06c]="C06" [C07c]="C07" [C08c]="C08" [C09d]="C09 C04" [C11c]="C11" [C13c]="C13 C08" [C16d]="C16" [C02c]="C02 C07" [C05d]="C05" [C06d]="C06 C05 C01" [C07d]="C07 C06" [C10d]="C10" [C11d]="C11 C12" [C12c]="C12 C11" [C13d]="C13 C01" [C15d]="C15" [C17d]="C17" [C19d]="C19 C07" [C20c]="C20" [C01e]="C01" [C03e]="C03" [C04d]="C04 C09" [C08d]="C08 C14" [C09e]="C09 C07" [C10e]="C10" [C14d]="C14 C03" [C16e]="C16 C04" [C17e]="C17" [C20d]="C20" )
+declare -A REL=( [C01]="C01 C06" [C03]="C03 C01" [C04]="C04 C16" [C05]="C05" [C06]="C06" [C08]="C08" [C09]="C09" [C10]="C10" [C11]="C11" [C12]="C12 C11" [C13]="C13" [C14]="C14" [C15]="C15" [C16]="C16 C17" [C17]="C17" [C19]="C19" [C20]="C20" [C02]="C02 C01 C05" [C07]="C07" [C01b]="C01" [C03b]="C03 C14" [C05b]="C05 C02" [C09b]="C09" [C10b]="C10" [C14b]="C14 C10" [C15b]="C15" [C04b]="C04" [C06b]="C06 C01" [C08b]="C08" [C11b]="C11 C12" [C12b]="C12 C11" [C13b]="C13" [C16b]="C16" [C17b]="C17" [C19b]="C19" [C20b]="C20" [C01c]="C01 C07" [C03c]="C03 C07" [C05c]="C05 C02" [C07b]="C07" [C09c]="C09" [C10c]="C10" [C14c]="C14" [C15c]="C15 C04" [C16c]="C16" [C17c]="C17" [C19c]="C19" [C02b]="C02 C01 C06" [C01d]="C01 C02" [C03d]="C03" [C04c]="C04 C15" [C06c]="C06" [C07c]="C07" [C08c]="C08" [C09d]="C09 C04" [C11c]="C11" [C13c]="C13 C08" [C16d]="C16" [C02c]="C02 C07" [C05d]="C05" [C06d]="C06 C05 C01" [C07d]="C07 C06" [C10d]="C10" [C11d]="C11 C12" [C12c]="C12 C11" [C13d]="C13 C01" [C15d]="C15" [C17d]="C17" [C19d]="C19 C07" [C20c]="C20" [C01e]="C01" [C03e]="C03" [C04d]="C04 C09" [C08d]="C08 C14" [C09e]="C09 C07" [C10e]="C10" [C14d]="C14 C03" [C16e]="C16 C04" [C17e]="C17" [C20d]="C20" [C05e]="C05" [C06e]="C06 C07" [C07e]="C07 C02" [C11e]="C11 C12 C15" [C13e]="C13" [C15e]="C15" [C19e]="C19" )
 for d in seeded/*/; do
   n=$(basename $d); ps=${REL[$n]:-$n}
   [ -z "$(git -C /repo status --porcelain -- src)" ] || { echo "REFUSING: /repo dirty"; exit 9; }
